@@ -36,6 +36,10 @@ def aggs_with_paths(tree):
             yield from visit(t[1], path)
             for i, v in t[2]:
                 yield from visit(v, path)
+        elif t[0] == "backedge":
+            for l, v in t[3]:
+                if v is not None:
+                    yield from visit(v, path)
     yield from walk(tree, ())
 
 def classify(agg, path, body, eft_bodies):
@@ -67,11 +71,8 @@ def classify(agg, path, body, eft_bodies):
                 x, z = c[3], c[4]
                 if cval(z) == 0.0 and tag(x) == "field" and x[2] == 0 and tag(x[1]) == "call" and x[1][1] == "libm::modf" and x[1][2] is lo:
                     return "k6", "hi rounded by %s while modf(lo).0 == 0 (lo is an integer: lo = 0 or hi already integral)" % hi[1]
-    # k7 both words scaled by the same exact function
-    if tag(hi) == "call" and tag(lo) == "call" and hi[1] == lo[1] and len(hi) == len(lo) == 4 and hi[3] is lo[3]:
-        a, b = hi[2], lo[2]
-        if tag(a) == "field" and tag(b) == "field" and a[1] is b[1] and a[2] == 0 and b[2] == 1:
-            return "k7", "both words through %s with the same scale argument" % hi[1]
+    # (a pair of independently scaled words is NOT accepted: the low word may round when it becomes
+    #  subnormal - that was defect D8 in exp2; such pairs must go through Fast2Sum)
     return None, "hi = %s, lo = %s" % (vg.show(hi)[:120], vg.show(lo)[:120])
 
 def raw_sites(b):
@@ -133,7 +134,12 @@ def check_cfg(ctx, rep, f, cfg):
             rep.ok("R1", b.ident() + " (private packaging helper)" + sfx, detail="classified at its call sites", nontrivial=False)
             continue
         try:
-            t = H.tree_of(f, b, "none")
+            try:
+                t = H.tree_of(f, b, "none")
+            except vg.Unsupported:
+                # bodies with loops (powi): over-approximate the loop, the aggregate sites stay visible
+                ex = vg.Exec(f, vg.Policy(f, "none"), loops="havoc")
+                t = ex.run_body(b)
         except vg.Unsupported as u:
             rep.fail("R1", b.ident() + sfx, "unanalysable-constructor:" + b.ident(),
                      "%s builds a TwoFloat by hand and cannot be analysed (%s)" % (b.ident(), u), where=H.where(b))
@@ -156,7 +162,11 @@ def check_cfg(ctx, rep, f, cfg):
             rep.fail("R1", b.ident() + sfx, "lost-site:" + b.ident(), "aggregate sites of %s were not reached by the evaluator" % b.ident(), where=H.where(b))
     rep.analysed["sites" + sfx] = total_sites
     rep.analysed["classes" + sfx] = counts
-    rep.floor("R1", total_sites, 27, "TwoFloat aggregate sites" + sfx)
+    # the four error-free primitives must exist (role-identified); the number of other sites is free to
+    # change when constructors are re-spelled (From / from_f64 / struct literal)
+    rep.check(set(eft_bodies.values()) >= {"Fast2Sum", "2Sum", "2Sub", "2Prod"}, "R1", "error-free primitives present" + sfx, "anchor-lost:eft-primitives",
+              "the crate no longer contains conforming Fast2Sum / 2Sum / 2Sub / 2Prod primitives: %s (reason=anchor-lost)" % sorted(set(eft_bodies.values())), detail=sorted(eft_bodies), nontrivial=False)
+    rep.floor("R1", total_sites, 8, "TwoFloat aggregate sites" + sfx)
     # constants: every TwoFloat / [TwoFloat; N] constant is valid or an explicit non-finite marker
     n_c = 0; n_w = 0
     for c in f.consts:
